@@ -24,8 +24,9 @@ event since the previous quiet point; no pause, no shutdown); otherwise `model :
 
 MONITOR (on the implementation's outputs only): per member, everything received so
 far is a subsequence of everything emitted so far; at a quiet point with no drops the
-last received kind per member equals the last emitted kind; at `end` the member's
-status matches the last non-update kind received.
+last received kind per member equals the last emitted kind; at `end` (directly after a
+quiet point, nothing dropped) the status inside the last record delivered for each member
+matches the member's status (alive → leaving is the one change without an event).
 -/
 namespace SerfModel.Check.C16
 open SerfModel SerfModel.Check SerfModel.MemberCoalesce SerfModel.UserCoalesce SerfModel.Pipeline
@@ -278,7 +279,7 @@ def step (s : St) (op : List String) (impl : String) : LineOut St :=
     else if w == "end" then
       let mon := match parseStatuses impl with
         | none => some ("malformed", impl)
-        | some sts => if s.lossy then none else monitorStatuses s.received sts
+        | some sts => if s.lossy || s.sinceWait != 0 then none else monitorStatuses s.received sts
       { state := s, model := some (statusLine s.members), monitor := mon }
     else bad
   | _ => bad
